@@ -579,6 +579,18 @@ def case_uni_add_quote():
     )
 
 
+def case_uni_add_tick_base():
+    broker, market, eth, usdc, price, prices, holdings, _ = uni_setup()
+    return Ctx(broker, prices, holdings,
+               lambda: market.add_liquidity_by_tick(199000, 201000, base_max_amount=NEG, quote_max_amount=price), ["ETH", "USDC"])
+
+
+def case_uni_add_tick_quote():
+    broker, market, eth, usdc, price, prices, holdings, _ = uni_setup()
+    return Ctx(broker, prices, holdings,
+               lambda: market.add_liquidity_by_tick(199000, 201000, base_max_amount=D(1), quote_max_amount=NEG), ["ETH", "USDC"])
+
+
 def case_uni_remove():
     broker, market, eth, usdc, price, prices, holdings, pos = uni_setup(with_position=True)
     return Ctx(broker, prices, holdings, lambda: market.remove_liquidity(pos, liquidity=-5), [])
@@ -614,6 +626,8 @@ CASES = [
     ("UniLpMarket.add_liquidity_by_value", "value_to_use", "-5", case_uni_add_by_value),
     ("UniLpMarket.add_liquidity", "base_max_amount", "-5", case_uni_add_base),
     ("UniLpMarket.add_liquidity", "quote_max_amount", "-5", case_uni_add_quote),
+    ("UniLpMarket.add_liquidity_by_tick", "base_max_amount", "-5", case_uni_add_tick_base),
+    ("UniLpMarket.add_liquidity_by_tick", "quote_max_amount", "-5", case_uni_add_tick_quote),
     ("UniLpMarket.remove_liquidity", "liquidity", "-5", case_uni_remove),
     ("UniLpMarket.collect_fee", "max_collect_amount0", "-5", case_uni_collect),
 ]
